@@ -8,5 +8,8 @@ names = sorted(f.qualname for f in p.functions.values())
 path = os.path.join(os.path.dirname(os.path.dirname(os.path.abspath(__file__))), "sa", "pinned_functions.json")
 old = json.load(open(path))
 old["functions"] = names
+old["classes"] = sorted(c.qualname for c in p.classes.values())
+from sa.features import features_of
+old["features"] = {f.qualname: sorted(features_of(f.node)) for f in p.functions.values() if features_of(f.node)}
 json.dump(old, open(path, "w"), indent=0)
 print(len(names), "functions")
